@@ -1,11 +1,11 @@
-\* negative control: remove_connection that forgets the byte counters must violate TotalsMonotone
+\* part S: larger instance for -simulate (3 peers x 3 seeder keys x 3 circuits; 180/300/120/60 s at 60 s per tick)
 SPECIFICATION SpecS
 CONSTANTS
-  T0 = 10  MaxTime = 12
-  Peers = {1}  Seeders = {1, 2}  Circuits = {1, 2}
-  MaxIpAge = 2  MinDht = 3  MaxDht = 1  Interval = 1  ConnLimit = 2  MaxBytes = 1  MaxResult = 1
+  T0 = 10  MaxTime = 60
+  Peers = {1, 2, 3}  Seeders = {1, 2, 3}  Circuits = {1, 2, 3}
+  MaxIpAge = 3  MinDht = 5  MaxDht = 2  Interval = 1  ConnLimit = 2  MaxBytes = 3  MaxResult = 2
   SeedingChoices = {FALSE}
-  DupAdd = FALSE  ExpireUsed = FALSE  NoGate = FALSE  ForgetHistory = TRUE
+  DupAdd = FALSE  ExpireUsed = FALSE  NoGate = FALSE  ForgetHistory = FALSE
   Nodes = {1}  NSwarmA = 1  PSeeders = {1}  PexAge = 3  PexCap = 2  SendCap = 10
   Unload = FALSE  ExpireNewest = FALSE  CrossSwarm = FALSE  MaxMsgs = 0  MaxAnn = 2
 INVARIANT TypeOK
